@@ -9,7 +9,7 @@
 (*   MODE  = "addsub" | "mul" | "div" | "rem" | "new" | "nov" | "frac" |   *)
 (*           "wide" | "cmp" | "expflow" | "expflow_old" | "quadrant" |     *)
 (*           "atanflow" | "powfflow" | "euclid" | "exp2scale[_old]" |      *)
-(*           "exp2flow" | "sqrt" | "cbrt" | "powi" | "asinflow"            *)
+(*           "exp2flow" | "sqrt" | "cbrt" | "powi" | "asinflow" | "toint"  *)
 (* A violated contract makes the invariant NoBad fail; the counterexample  *)
 (* state carries the operands and the violated clauses.                    *)
 (***************************************************************************)
@@ -26,6 +26,8 @@ EMAX_NARROW == 8
 E0_ZERO == 0
 E0_LOW == -6
 E0_M3 == -3
+E0_P2 == 2
+E0_P1 == 1
 E0_M5 == -5
 E0_M2 == -2
 E0_M4 == -4
@@ -149,6 +151,23 @@ CheckWide(n) ==
         IF WideOK(m, AFromWide(m, -P2(WBITS - 1), P2(WBITS - 1) - 1)) THEN {}
         ELSE {<<"from_signed", m, AFromWide(m, -P2(WBITS - 1), P2(WBITS - 1) - 1)>>})
 
+\* C09: TryFrom<TwoFloat> for an unsigned and a signed integer type of WBITS bits (the wide macro when WBITS > P,
+\* the narrow one otherwise) on every valid x of a window reaching beyond the types' ranges, both signs:
+\* Ok(t) with t = trunc(x) exactly when t lies in the type's range, no intermediate integer overflow
+ToIntOK(x, lo, hi, res) ==
+  LET t == DTrunc(Value(x))
+      inr == DCmp(t, DInt(lo)) >= 0 /\ DCmp(t, DInt(hi)) <= 0
+  IN /\ res.ok = inr
+     /\ ~res.ovf
+     /\ (inr => DCmp(DInt(res.n), t) = 0)
+CheckToInt(a) ==
+  UNION { LET ulo == 0   uhi == P2(WBITS) - 1   slo == -P2(WBITS - 1)   shi == P2(WBITS - 1) - 1
+              ru == IF WBITS > P THEN AToWide(x, ulo, uhi) ELSE AToNarrow(x, ulo, uhi)
+              rs == IF WBITS > P THEN AToWide(x, slo, shi) ELSE AToNarrow(x, slo, shi)
+          IN (IF ToIntOK(x, ulo, uhi, ru) THEN {} ELSE {<<"try_into_unsigned", x, ru>>})
+             \cup (IF ToIntOK(x, slo, shi, rs) THEN {} ELSE {<<"try_into_signed", x, rs>>})
+          : x \in {a, ANeg(a)} }
+
 \* C06: lexicographic comparison of normalised pairs is the comparison of exact values
 LexCmp(x, y) == LET c == FCmp(x.hi, y.hi) IN IF c = 0 THEN FCmp(x.lo, y.lo) ELSE c
 CheckCmp(a) ==
@@ -224,7 +243,7 @@ CheckPowi(a) ==
 
 Items ==
   CASE MODE \in {"addsub", "mul", "div", "rem", "new", "cmp", "euclid", "powi"} -> SliceOf(SeqOfSet(ASet))
-    [] MODE \in {"expflow", "expflow_old", "quadrant", "atanflow", "powfflow", "exp2flow", "sqrt", "cbrt", "asinflow"} -> SliceOf(SeqOfSet(ValidWithHi({ w \in WordsIn(E0 - GAP, E0 + GAP) : ~w.neg })))
+    [] MODE \in {"expflow", "expflow_old", "quadrant", "atanflow", "powfflow", "exp2flow", "sqrt", "cbrt", "asinflow", "toint"} -> SliceOf(SeqOfSet(ValidWithHi({ w \in WordsIn(E0 - GAP, E0 + GAP) : ~w.neg })))
     [] MODE \in {"exp2scale", "exp2scale_old"} -> SliceOf(SeqOfSet(ValidWithHi({ w \in WordsIn(-P, -P + 1) : ~w.neg })))
     [] MODE = "frac" -> SliceOf(SeqOfSet(ValidWithHi({ w \in WordsIn(E0 - GAP, E0 + GAP) : ~w.neg })))
     [] MODE = "nov" -> SliceOf(SeqOfSet(AllWords))
@@ -251,6 +270,7 @@ CheckItem(it) ==
     [] MODE = "exp2scale_old" -> CheckExp2Scale(it, TRUE)
     [] MODE = "exp2flow" -> CheckExp2Flow(it)
     [] MODE = "asinflow" -> CheckAsinFlow(it)
+    [] MODE = "toint" -> CheckToInt(it)
     [] MODE = "sqrt" -> CheckSqrt(it)
     [] MODE = "cbrt" -> CheckCbrt(it)
     [] MODE = "powi" -> CheckPowi(it)
